@@ -110,7 +110,7 @@ def ast_dec(j):
                 return asn.Rng(kw.get('lo'), kw.get('hi'), kw.get('ext', False),
                                kw.get('more', ()), kw.get('lo_txt'), kw.get('hi_txt'))
             if cls is asn.Alpha:
-                return asn.Alpha(kw['items'])
+                return asn.Alpha(kw['items'], kw.get('ext', False))
         if '$l' in j:
             return [ast_dec(x) for x in j['$l']]
         if '$tu' in j:
